@@ -436,17 +436,17 @@ func (b Builder) PyVal(v Expr) (ret Expr) {
 		case types.Float64:
 			return b.PyFloat(v)
 		case types.Int, types.Int8, types.Int16, types.Int32, types.Int64:
-			typ := b.Prog.Int64().ll
-			if b.Prog.td.TypeAllocSize(v.ll) < b.Prog.td.TypeAllocSize(typ) {
-				v.impl = llvm.CreateSExt(b.impl, v.impl, typ)
-				v.ll = typ
+			// build a new Expr: v.Type is the program-wide cached type of e.g. int8,
+			// assigning to v.ll would turn every later int8 of the program into i64
+			typ := b.Prog.Int64()
+			if b.Prog.td.TypeAllocSize(v.ll) < b.Prog.td.TypeAllocSize(typ.ll) {
+				v = Expr{llvm.CreateSExt(b.impl, v.impl, typ.ll), typ}
 			}
 			return b.PyInt64(v)
 		case types.Uint, types.Uint8, types.Uint16, types.Uint32, types.Uint64, types.Uintptr:
-			typ := b.Prog.Uint64().ll
-			if b.Prog.td.TypeAllocSize(v.ll) < b.Prog.td.TypeAllocSize(typ) {
-				v.impl = llvm.CreateZExt(b.impl, v.impl, typ)
-				v.ll = typ
+			typ := b.Prog.Uint64()
+			if b.Prog.td.TypeAllocSize(v.ll) < b.Prog.td.TypeAllocSize(typ.ll) {
+				v = Expr{llvm.CreateZExt(b.impl, v.impl, typ.ll), typ}
 			}
 			return b.PyUint64(v)
 		case types.String:
